@@ -23,7 +23,7 @@ CHECKS = {
         category="other",
         text="Substitution clause decided exactly: the closure's decision table (ccp, 64 setting subsets x 4 feasible memberships) equals the "
              "documented precedence; captured variables are traced to the settings written by the public setters; the pass runs whenever a class "
-             "option is on. The language clause (tokens survive the automaton pipeline) is not decided.",
+             "option is on; the char handed to the predicates ranges over all chars of every stored string (CLS-4). The language clause (tokens survive the automaton pipeline) is not decided.",
         design_ref="DESIGN.md §4 C03",
         note=TRUST + "Necessary-and-sufficient for the per-code-point substitution, necessary only for the language statement.",
         technique="static analysis: path-splitting constant propagation + control dependence + setter effect summaries",
@@ -43,7 +43,7 @@ CHECKS = {
         category="other",
         text="Panic discipline decided statically: the three documented panics are exact (single guard, documented message, other path writes); no explicit "
              "panic and no unwrap of a run-time Result is reachable from build(); the two bounds guards dominate their sites; an inventory of the remaining "
-             "panic-capable sites is evidence only. That the printed pattern is accepted by the regex crate is not decided.",
+             "panic-capable sites is evidence only; the automaton's graph index type is at least 32 bits wide (PAN-6). That the printed pattern is accepted by the regex crate is not decided.",
         design_ref="DESIGN.md §4 C07",
         note=TRUST + "Option::unwrap/indexing/arithmetic sites reachable from build() are enumerated, not proven unreachable.",
         technique="static analysis: call-graph reachability, constant propagation on the documented panics, dominator-based guard rules",
@@ -52,7 +52,8 @@ CHECKS = {
         category="other",
         text="Anchor emission decided exactly by constant propagation over the printer (all abstract paths: '^'/'$' iff enabled, nothing rewrites them); "
              "the search clause is decided only as mechanism: alternations are always ordered longest-first, the order self-check covers every "
-             "configuration without '$' and judges the match extent.",
+             "configuration without '$' and judges the match extent, all stages of the entry function consume the same converted clusters (PIPE-1) and the one "
+             "alternation that is not self-checked afterwards is ordered by matched chars (ALT-2).",
         design_ref="DESIGN.md §4 C08",
         note=TRUST + "That every search spans the whole test case for all inputs is not decided (needs the run-time automaton).",
         technique="static analysis: path-splitting constant propagation with string templates, control dependence, provenance of the self-check verdict",
@@ -80,7 +81,7 @@ CHECKS = {
         category="other",
         text="Necessary conditions only: finality is transferred per state when the automaton is rebuilt and every inserted test case marks its last "
              "state final; every regex metacharacter (oracle: regex_syntax::is_meta_character of the locked version) is escaped per occurrence in literals "
-             "and in bracket classes. Breaking any of them makes some test case unmatched or the pattern invalid. That minimisation, elimination and "
+             "and in bracket classes; the single-code-point test that licenses bracket classes and group omission counts chars and measures every unit (CNT-1/2). Breaking any of them makes some test case unmatched or the pattern invalid. That minimisation, elimination and "
              "printing preserve membership is not decided.",
         design_ref="DESIGN.md §4 C01",
         note=TRUST + "One genuine defect is recorded as a known finding (empty string loses finality: FIN-1) because its repair contradicts three pinned tests.",
@@ -89,7 +90,7 @@ CHECKS = {
     "C05": dict(
         category="other",
         text="Notation clauses decided by constant propagation over the quantifier printer on all abstract paths ({min,max} iff min<max, {min} iff min>1, group "
-             "only around quantified multi-code-point units, decision not taken on the printed form), the label guard of the minimiser, and trie-edge "
+             "only around quantified multi-code-point units, decision not taken on the printed form; an operand under a quantifier keeps its outer group: PRC-2), the label guard of the minimiser, and trie-edge "
              "immutability during insertion (today violated: known finding). Language equality with/without the option is not decided.",
         design_ref="DESIGN.md §4 C05",
         note=TRUST + "TRI-1 is a genuine defect recorded as a known finding (no small repair).",
@@ -108,7 +109,8 @@ CHECKS = {
         category="other",
         text="Structural clauses: on every verbose path each character ignored under (?x) is rewritten to an escape denoting exactly that character; the "
              "(?x)/(?ix) header is exact; in each group-printing function one boolean decides the group kind on all paths; value-flow provenance shows "
-             "that every capture / line-break / colour / escape / surrogate site can only receive its own setting (no crossed positional flags).",
+             "that every capture / line-break / colour / escape / surrogate site can only receive its own setting (no crossed positional flags); the counter behind "
+             "the single-code-point test measures chars of every unit (CNT-1/2), with or without escaping.",
         design_ref="DESIGN.md §4 C06",
         note=TRUST + "Language equality under each option is not decided; the indenter's content preservation is assumed.",
         technique="static analysis: constant propagation with string templates (loops over constant arrays unrolled), interprocedural value-flow provenance",
@@ -125,7 +127,9 @@ CHECKS = {
     "C02": dict(
         category="other",
         text="Printer clauses only (each necessary: breaking one yields ^a|b$-style over-matching for some input): precedence table order, group iff "
-             "lower precedence and not a single code point with the right operands, outer group iff alternation - decided on all abstract paths. Whether the "
+             "lower precedence and not a single code point with the right operands, outer group iff alternation - decided on all abstract paths; class ranges only over "
+             "consecutive scalars; inside union(): class merge only under single-code-point guards, `x?` only from the non-empty side and never `*` (abstract paths of union), "
+             "prefix/suffix re-attached on the right side; the state elimination has the schema of the algebraic method; the single-code-point counter counts chars. Whether the "
              "minimiser, union() factoring and remove_common_substring preserve the language is NOT decided.",
         design_ref="DESIGN.md §4 C02",
         note=TRUST + "The algorithmic core of exactness is out of reach of this family; see DESIGN.md §0.",
